@@ -66,6 +66,13 @@ res.append(["stderr not mixed in", g["r"] == "OUT", repr(g["r"]), "OUT"])
 g["prog"] = "import sys; sys.stdout.write('z'); sys.exit(3)"
 run("p = !(@(PY) -c @(prog)); o = p.out; rc = p.returncode", g)
 res.append(["return code of the final stage", g["o"] == "z" and g["rc"] == 3, g["rc"], 3])
+# one-line output: ONLY the final newline goes; blanks, tabs and other trailing whitespace before it are bytes the command wrote
+for text in ["two words  ", "   ", "tab\t", "x \t ", "nbsp\u00a0", "plain"]:
+    g["prog"] = "import sys; sys.stdout.write(%r + chr(10))" % text
+    run("r = $(@(PY) -c @(prog))", g)
+    res.append(["one line ending in whitespace %r via $()" % text, g["r"] == text, repr(g["r"]), repr(text)])
+    run("p = !(@(PY) -c @(prog)); o = p.out", g)
+    res.append(["one line ending in whitespace %r via !().out" % text, g["o"] in (text, text + "\n"), repr(g["o"]), repr(text)])
 g["prog"] = "print('a b  c')"
 run("r = $(echo @$(@(PY) -c @(prog)))", g)
 res.append(["@$() injects the whitespace-separated words", g["r"] == "a b c", repr(g["r"]), repr("a b c")])
